@@ -58,6 +58,9 @@ except FileNotFoundError:
 CHECKS.update(EXTRA)
 
 props = [json.loads(l) for l in open(os.path.join(ROOT, "properties.jsonl"))]
+AGED = {"C01", "C02", "C03", "C04", "C05", "C06", "C07", "C08", "C09", "C10", "C11", "C15", "C17", "C18", "C19", "C20"}
+AGED_TXT = ("; the clauses are evaluated on aged objects: model-only call histories enumerated by TLC from the XLifecycle state graph "
+            "(whose invariants make the state after history . Fit(d) equal to a fresh Fit(d)) are executed on the object around the scenario's own fit (harness/aging.py)")
 checks, na = [], []
 for p in props:
     pid = p["id"]
@@ -68,7 +71,7 @@ for p in props:
     checks.append(dict(
         property_id=pid, quick_cmd=f"./check {pid} --tier quick", thorough_cmd=f"./check {pid} --tier thorough",
         evidence_file=f"/verif/evidence/{pid}.json", replay_cmd_template=f"./check {pid} --replay {{path}}", engine="tlc",
-        technique=c["tech"],
+        technique=c["tech"] + (AGED_TXT if pid in AGED else ""),
         level_claimed=dict(category=c["level"], text=c["text"], design_ref="DESIGN.md section " + DESIGN.get(pid, "6")),
         level_note=c["note"]))
 man = dict(
